@@ -182,6 +182,43 @@ class Impl:
             raise Dead()
         return ent, h
 
+    def via(self, key, kinds, via):
+        """the handle the description `via` reaches: "fresh" (containers, by name), "cached" (returned by
+        create_section), "found" (element of a find_* result), ["md", e] (e.metadata), ["link", h] (element of
+        h.sources)"""
+        ent, h = self.get(key, kinds)
+        if via == "fresh":
+            return ent, h
+        if via == "cached":
+            return ent, self.cached.get(key, h)
+        if via == "found":
+            if ent["kind"] == "section":
+                res = self.f.find_sections()
+            elif ent["kind"] == "source":
+                res = self._child(self.f.blocks, ent["path"][0]).find_sources()
+            else:
+                raise Dead()
+            for x in res:
+                if x.id == ent["id"]:
+                    return ent, x
+            raise Dead()
+        if via[0] == "md":
+            try:
+                _, e = self.get(via[1], ("block", "holder", "source"))
+            except Dead:
+                raise Dead()
+            m = e.metadata
+            if m is None or m.id != ent["id"] or ent["kind"] != "section":
+                raise Dead()
+            return ent, m
+        if via[0] == "link":
+            _, hold = self.get(via[1], ("holder",))
+            for x in hold.sources:
+                if x.id == ent["id"]:
+                    return ent, x
+            raise Dead()
+        raise ValueError("via")
+
     def _register(self, kind, path, handle, hkind=None):
         k = self.next
         self.next += 1
@@ -291,40 +328,33 @@ class Impl:
             self.f = self.nixio.File.open(self.path, self.nixio.FileMode.ReadWrite)
             return None
         # ---- queries ----
+        if op == "set_link":
+            _, s = self.get(line[1], ("section",))
+            if line[2] is None:
+                s.link = None
+            else:
+                _, t = self.get(line[2], ("section",))
+                s.link = t
+            return None
         if op == "find":
             root, filt, limit = line[1], make_filter(line[2]), line[3]
             if root == "file":
                 return self._keys(f.find_sections(filtr=filt, limit=limit))
-            ent, h = self.get(root, ("section", "source", "block"))
+            ent, h = self.via(root, ("section", "source", "block"), line[4] if len(line) > 4 else "fresh")
             if ent["kind"] == "section":
                 return self._keys(h.find_sections(filtr=filt, limit=limit))
             return self._keys(h.find_sources(filtr=filt, limit=limit))
+        if op == "find_related":
+            ent, h = self.via(line[1], ("section",), line[2])
+            return self._keys(h.find_related(filtr=make_filter(line[3])))
         if op == "parent":
-            k, via = line[1], line[2]
-            ent, h = self.get(k, ("section",))
-            if via == "cached":
-                h = self.cached.get(k, h)
-            elif via != "fresh":
-                _, e = self.get(via[1], ("block", "holder", "source"))
-                m = e.metadata
-                if m is None or m.id != ent["id"]:
-                    raise Dead()
-                h = m
+            ent, h = self.via(line[1], ("section",), line[2])
             return self._key(h.parent)
         if op in ("parent_source", "parent_block"):
-            k, via = line[1], line[2]
-            ent, h = self.get(k, ("source",))
-            if via != "fresh":
-                _, hold = self.get(via[1], ("holder",))
-                h = None
-                for s in hold.sources:
-                    if s.id == ent["id"]:
-                        h = s
-                if h is None:
-                    raise Dead()
+            ent, h = self.via(line[1], ("source",), line[2])
             return self._key(h.parent_source if op == "parent_source" else h.parent_block)
         if op == "referring":
-            ent, h = self.get(line[1], ("section", "source"))
+            ent, h = self.via(line[1], ("section", "source"), line[3] if len(line) > 3 else "fresh")
             what = line[2]
             return self._keys(getattr(h, "referring_" + what))
         raise ValueError("unknown op")
@@ -362,8 +392,9 @@ def gen_op(impl, rng, phase):
         line = _gen_op(impl, rng, phase)
         # re-draw most lines whose key arguments cannot be live (keeps the malformed share small)
         keys = [x for x in line[1:3] if isinstance(x, int)]
-        if line[0] in ("parent", "parent_source", "parent_block") and not isinstance(line[2], str):
-            keys.append(line[2][1])
+        for x in line[2:]:
+            if isinstance(x, list) and x and x[0] in ("md", "link"):
+                keys.append(x[1])
         if all(k in impl.reg for k in keys) or rng.random() < 0.25:
             return line
     return line
@@ -430,8 +461,54 @@ def _gen_op(impl, rng, phase):
         return ["delete", rng.choice(live) if live and rng.random() > 0.1 else rng.randint(0, impl.next + 1)]
     if r < 0.67:
         return ["reopen"]
+    if r < 0.685:
+        return ["set_link", some("section"), None if rng.random() < 0.2 else some("section")]
     # ---- queries -------------------------------------------------------------------------
+    def sec_via(k, p_cached=0.2, p_md=0.3, p_found=0.15):
+        """a handle description for the section k: re-fetched, cached, found, or through a metadata link"""
+        c = rng.random()
+        if c < p_cached:
+            return "cached"
+        if c < p_cached + p_found:
+            return "found"
+        if c < p_cached + p_found + p_md:
+            refs = []
+            if k in reg and reg[k]["kind"] == "section":
+                try:
+                    _, h = impl.get(k, ("section",))
+                    refs = [x for x in impl._keys(h.referring_objects) if x != "?"]
+                except Exception:
+                    refs = []
+            pool = by["block"] + by["holder"] + by["source"]
+            if refs and rng.random() < 0.9:
+                return ["md", rng.choice(refs)]
+            if pool:
+                return ["md", rng.choice(pool)]
+        return "fresh"
+
+    def src_via(k, p_link=0.4, p_found=0.15):
+        c = rng.random()
+        if c < p_found:
+            return "found"
+        if c < p_found + p_link and by["holder"]:
+            hs = []
+            if k in reg and reg[k]["kind"] == "source":
+                for hk in by["holder"]:
+                    try:
+                        _, hh = impl.get(hk, ("holder",))
+                        if any(s.id == reg[k]["id"] for s in hh.sources):
+                            hs.append(hk)
+                    except Exception:
+                        pass
+            return ["link", rng.choice(hs) if hs and rng.random() < 0.9 else rng.choice(by["holder"])]
+        return "fresh"
+
     q = rng.random()
+    if q < 0.05:
+        k = some("section")
+        if by["section"] and rng.random() < 0.6:   # prefer sections that have a parent and siblings
+            k = max(by["section"], key=lambda x: (min(_depth_of(impl, x), 1), rng.random()))
+        return ["find_related", k, sec_via(k, p_found=0.1), _rand_filter(rng)]
     if q < 0.36:
         c = rng.random()
         if c < 0.25:
@@ -445,46 +522,32 @@ def _gen_op(impl, rng, phase):
         limit = None if rng.random() < 0.2 else rng.randint(0, md + 1)
         if rng.random() < 0.03:
             limit = rng.choice([10 ** 6, 2 ** 63 - 1, 2 ** 63])
-        return ["find", root, _rand_filter(rng), limit]
+        line = ["find", root, _rand_filter(rng), limit]
+        if root != "file" and root in reg and rng.random() < 0.35:
+            kind = reg[root]["kind"]
+            if kind == "section":
+                line.append(sec_via(root))
+            elif kind == "source":
+                line.append(src_via(root))
+        return line
     if q < 0.56:
         k = some("section")
-        c = rng.random()
-        via = "fresh"
-        if c < 0.25:
-            via = "cached"
-        elif c < 0.55:
-            refs = []
-            if k in reg and reg[k]["kind"] == "section":
-                try:
-                    _, h = impl.get(k, ("section",))
-                    refs = [x for x in impl._keys(h.referring_objects) if x != "?"]
-                except Exception:
-                    refs = []
-            pool = by["block"] + by["holder"] + by["source"]
-            if refs and rng.random() < 0.9:
-                via = ["md", rng.choice(refs)]
-            elif pool:
-                via = ["md", rng.choice(pool)]
-        return ["parent", k, via]
+        return ["parent", k, sec_via(k, 0.25, 0.3, 0.1)]
     if q < 0.78:
         k = some("source")
-        via = "fresh"
-        if rng.random() < 0.4 and by["holder"]:
-            hs = []
-            if k in reg and reg[k]["kind"] == "source":
-                for hk in by["holder"]:
-                    try:
-                        _, hh = impl.get(hk, ("holder",))
-                        if any(s.id == reg[k]["id"] for s in hh.sources):
-                            hs.append(hk)
-                    except Exception:
-                        pass
-            via = ["link", rng.choice(hs) if hs and rng.random() < 0.9 else rng.choice(by["holder"])]
-        return [rng.choice(["parent_source", "parent_source", "parent_block"]), k, via]
+        return [rng.choice(["parent_source", "parent_source", "parent_block"]), k, src_via(k)]
     if rng.random() < 0.6:
-        return ["referring", some("section"),
+        k = some("section")
+        line = ["referring", k,
                 rng.choice(["blocks", "groups", "data_arrays", "tags", "multi_tags", "sources", "sources", "objects"])]
-    return ["referring", some("source"), rng.choice(["groups", "data_arrays", "tags", "multi_tags", "objects"])]
+        if rng.random() < 0.3:
+            line.append(sec_via(k))
+        return line
+    k = some("source")
+    line = ["referring", k, rng.choice(["groups", "data_arrays", "tags", "multi_tags", "objects"])]
+    if rng.random() < 0.3:
+        line.append(src_via(k))
+    return line
 
 
 def gen_history(ctx, path, nbuild, nmixed, on_state=None):
@@ -572,7 +635,7 @@ def _nontrivial(line, out):
         return bool(v) and (line[3] is not None or line[2] != ["all"])
     if op in ("parent", "parent_source"):
         return v is not None
-    if op == "referring":
+    if op in ("referring", "find_related"):
         return bool(v)
     return op in ("delete", "reopen", "unlink_source", "del_metadata", "parent_block")
 
@@ -616,8 +679,12 @@ def correspondence(ctx):
             op = line[0]
             key = op if op != "find" else "find/%s/%s" % (
                 "file" if line[1] == "file" else "key", "none" if line[3] is None else "lim")
-            if op in ("parent", "parent_source", "parent_block"):
+            if op in ("parent", "parent_source", "parent_block", "find_related"):
                 key = "%s/%s" % (op, line[2] if isinstance(line[2], str) else line[2][0])
+            if op == "find" and len(line) > 4:
+                key += "/via-%s" % (line[4] if isinstance(line[4], str) else line[4][0])
+            if op == "referring" and len(line) > 3:
+                key = "referring/via-%s" % (line[3] if isinstance(line[3], str) else line[3][0])
             dist["ops"][key] = dist["ops"].get(key, 0) + 1
             if "err" in xo:
                 ek = "%s:%s" % (op, xo["err"])
